@@ -23,6 +23,16 @@ Proof.
 Qed.
 
 (* an application reply over TCP is never the empty string *)
+Lemma nbt_run_nonempty T tn tb tr data d :
+  nbt_run T tn tb tr data = Ok (Some d) -> d <> [].
+Proof.
+  unfold nbt_run. destruct (fold_res _ _ _) as [st|s]; cbn [bind]; [|discriminate].
+  unfold nbt_repl. destruct (nb_pay _ st); [|discriminate].
+  destruct (tr _); [|discriminate].
+  destruct (256 <=? _); [discriminate|].
+  intros H; inversion H; subst. discriminate.
+Qed.
+
 Lemma dispatch_nonempty E clk ci id t data ci' t' d :
   env_ok E = true ->
   dispatch E clk ci id t data = Ok (ci', t', Some d) -> d <> [].
@@ -59,8 +69,12 @@ Proof.
     destruct (ci_port_dst ci); [|intros H; inversion H].
     unfold rpc_repl_udp. destruct (r_state _ =? R_END); intros H; inversion H; subst.
     unfold rpc_build, be32. discriminate. }
-  destruct (id =? PROTO_SMB1); [unfold smb1_repl; intros H; inversion H|].
-  destruct (id =? PROTO_SMB2); [unfold smb2_repl; intros H; inversion H|].
+  destruct (id =? PROTO_SMB1).
+  { destruct (smb1_repl _ _ _ _) as [o|s] eqn:Hs1; cbn [bind]; [|discriminate].
+    intros H; inversion H; subst. unfold smb1_repl in Hs1. eapply nbt_run_nonempty; eassumption. }
+  destruct (id =? PROTO_SMB2).
+  { destruct (smb2_repl _ _ _ _) as [o|s] eqn:Hs2; cbn [bind]; [|discriminate].
+    intros H; inversion H; subst. unfold smb2_repl in Hs2. eapply nbt_run_nonempty; eassumption. }
   intros H; inversion H.
 Qed.
 
